@@ -10,7 +10,7 @@ use psc_model::{
 };
 use std::{
 	cell::RefCell,
-	collections::{BTreeMap, LinkedList, VecDeque},
+	collections::{BTreeMap, BTreeSet, BinaryHeap, LinkedList, VecDeque},
 	panic::{catch_unwind, AssertUnwindSafe},
 	rc::Rc,
 	sync::Arc,
@@ -111,6 +111,24 @@ impl Drop for Tracked {
 				l.live[id] = false;
 			}
 		});
+	}
+}
+
+// ordered by payload (for heaps and sets); equal payloads are equal elements
+impl PartialEq for Tracked {
+	fn eq(&self, o: &Self) -> bool {
+		*self.payload == *o.payload
+	}
+}
+impl Eq for Tracked {}
+impl PartialOrd for Tracked {
+	fn partial_cmp(&self, o: &Self) -> Option<std::cmp::Ordering> {
+		Some(self.cmp(o))
+	}
+}
+impl Ord for Tracked {
+	fn cmp(&self, o: &Self) -> std::cmp::Ordering {
+		self.payload.cmp(&o.payload)
 	}
 }
 
@@ -353,6 +371,15 @@ pub fn shapes() -> Vec<ShapeOps> {
 	shape!(v; "Vec<Option<Rc<T>>>", Vec<Option<Rc<Tracked>>>, 2, (0..4).map(|i| if i == 1 { None } else { Some(Rc::new(t(i))) }).collect());
 	shape!(v; "VecDeque<(T,u8)>", VecDeque<(Tracked, u8)>, 1, (0..4).map(|i| (t(i), i as u8)).collect());
 	shape!(v; "LinkedList<[T;2]>", LinkedList<[Tracked; 2]>, 1, (0..3).map(|i| [t(2 * i), t(2 * i + 1)]).collect());
+	// more than one 16 KiB preallocation chunk (682 elements of 24 bytes): faults in the second chunk
+	shape!(v; "Vec<T> x700 (2 chunks)", Vec<Tracked>, 1, (0..700).map(t).collect());
+	shape!(v; "VecDeque<T> x700 (2 chunks)", VecDeque<Tracked>, 1, (0..700).map(t).collect());
+	shape!(v; "Vec<[T;3]> x230 (2 chunks)", Vec<[Tracked; 3]>, 1, (0..230).map(|i| std::array::from_fn(|j| t(3 * i + j))).collect());
+	shape!(v; "BinaryHeap<T>", BinaryHeap<Tracked>, 1, (0..6).map(t).collect());
+	shape!(v; "BTreeSet<T>", BTreeSet<Tracked>, 1, (0..6).map(t).collect());
+	shape!(v; "Arc<T>", Arc<Tracked>, 1, Arc::new(t(0)));
+	shape!(v; "VecDeque<Box<T>>", VecDeque<Box<Tracked>>, 2, (0..4).map(|i| Box::new(t(i))).collect());
+	shape!(v; "LinkedList<Vec<T>>", LinkedList<Vec<Tracked>>, 2, (0..3).map(|i| (0..=i).map(t).collect()).collect());
 	shape!(v; "Vec<derived struct>", Vec<DS>, 2, (0..2).map(|i| DS { a: t(4 * i), b: 1, c: t(4 * i + 1), d: 0, e: vec![t(4 * i + 2), t(4 * i + 3)] }).collect());
 	v
 }
